@@ -1,5 +1,7 @@
 mod mathgen;
+mod colors;
 mod mathops;
+mod textgen;
 mod rnggen;
 mod util;
 
@@ -20,6 +22,7 @@ fn main() {
             let nraw: usize = a.get(5).and_then(|s| s.parse().ok()).unwrap_or(1500);
             rnggen::emit(seed, n, len, nraw)
         }
+        "text" => textgen::emit(seed, n, a.get(4).map(|s| s.as_str()).unwrap_or("")),
         "mathone" => {
             let op: i64 = a[2].parse().unwrap();
             let args: Vec<f64> = a[3..].iter().map(|s| s.parse().unwrap()).collect();
